@@ -15,7 +15,7 @@ KEY = "assoc-standalone-own-traffic"
 RULE = ("per case: one flow.LoadRules of 1-5 Direct/Reject rules over resources 1..4 (thresholds incl. 0, fractional, subnormal, "
         "NaN, +Inf, negative=invalid; StatIntervalInMs so that default view, derived view, independent window (n buckets of 500, or "
         "one bucket) and rejected geometries all occur; 25% associated rules, a fixed ~12% slice inside the known-finding region), then "
-        "20-90 ops: api.Entry (batch 0..T+1, big; in 5/8 of the cases a share 15-100% of the entries carries api.WithResourceType(web/rpc/…), typed and untyped mixed on one resource, also on the referenced resource of associated rules, always after the load), clock steps from {0,1,L-1,L,L+1,Iv-1,Iv,Iv+1,10 s,>array} and snaps onto bucket / "
+        "30% of the cases add 1-2 throttling rules (power-of-two thresholds, MaxQueueingTimeMs 0..2000) before/between/after the reject rules; 60% of the cases reload the rule list 1-4 times mid-case (identical, one field of one rule changed: threshold incl. +-1 ulp / interval / relation+RefResource, rule added / removed / swapped); 20-90 ops: api.Entry (batch 0..T+1, big; in 5/8 of the cases a share 15-100% of the entries carries api.WithResourceType(web/rpc/…), typed and untyped mixed on one resource, also on the referenced resource of associated rules, always after the load), clock steps from {0,1,L-1,L,L+1,Iv-1,Iv,Iv+1,10 s,>array} and snaps onto bucket / "
         "window / array-cycle boundaries, `par` (2-4 goroutines parked between rule check and statistic slots under a random schedule), "
         "node sums. Non-trivial = the case has a pass, a flow block and a later pass of the same resource after time moved "
         "(the window rolled); distinct by (rule geometries+relations, op-kind/decision sequence).")
@@ -59,6 +59,54 @@ def geom(iv):
     return ("own", sc, iv // sc, iv)
 
 
+THROTTLE_T = [1024.0, 1024.0, 4096.0, 64.0, 8.0, 8.0, 2.0, 0.5, 0.0]      # powers of two: the float interval is exact
+THROTTLE_Q = [0, 5, 500, 500, 2000]
+
+
+def throttle_rule(rng, res):
+    return [res, fb(rng.choice(THROTTLE_T)), rng.choice([0, 0, 1000, 500, 2000]), "-", "q%d" % rng.choice(THROTTLE_Q)]
+
+
+def rule_tok(r):
+    return ",".join(map(str, r))
+
+
+def mutate_rules(rng, rules, nres):
+    """a reload: identical / one field of one rule changed / rule added / removed / swapped"""
+    rules = [list(r) for r in rules]
+    k = rng.random()
+    i = rng.randrange(len(rules))
+    r = rules[i]
+    what = "identical"
+    if k < 0.12:
+        pass
+    elif k < 0.37:
+        what = "threshold"
+        if len(r) == 5:
+            r[1] = fb(rng.choice(THROTTLE_T))
+        else:
+            tv = thr_val(r[1])
+            r[1] = rng.choice([fb(rng.choice(THR)), fb(tv + 1) if tv == tv and tv < 1e9 else fb(1.0), fb(max(0.0, tv - 1)) if tv == tv and tv < 1e9 else fb(2.0),
+                               "f:%016x" % (int(r[1][2:], 16) + 1) if 0 < int(r[1][2:], 16) < 0x7fe0000000000000 else fb(3.0)])
+    elif k < 0.57:
+        what = "interval"
+        r[2] = rng.choice(IV_ALL if len(r) == 4 else [0, 1000, 500, 2000])
+    elif k < 0.77 and len(r) == 4:
+        what = "relation"
+        r[3] = rng.choice(["-"] + [str(x) for x in range(1, nres + 2)]) if r[3] == "-" or rng.random() < 0.3 else str(int(r[3]) % (nres + 1) + 1)
+    elif k < 0.87:
+        what = "add"
+        rules.insert(rng.randrange(len(rules) + 1), throttle_rule(rng, r[0]) if rng.random() < 0.3 else [r[0], fb(rng.choice(THR)), rng.choice(IV_ALL), "-"])
+    elif k < 0.94 and len(rules) > 1:
+        what = "remove"
+        del rules[i]
+    else:
+        what = "swap"
+        j = rng.randrange(len(rules))
+        rules[i], rules[j] = rules[j], rules[i]
+    return rules, what
+
+
 def gen_rules(rng, force_region):
     nres = rng.choice([1, 2, 2, 3, 4])
     rules = []
@@ -91,10 +139,17 @@ def gen_case(rng, cid, force_region=None):
     if force_region is None:
         force_region = rng.random() < 0.12
     rules, nres = gen_rules(rng, force_region)
+    # throttling rules (30% of the cases): before / between / after the reject rules of a resource
+    if rng.random() < 0.30:
+        for _ in range(rng.choice([1, 1, 2])):
+            rules.insert(rng.randrange(len(rules) + 1), throttle_rule(rng, rng.choice(rules)[0]))
+    reload_p = rng.choice([0, 0, 0.03, 0.06, 0.12])      # 60% of the cases reload their rules (1..4 times)
+    nreloads = 0
     base = T0 + rng.choice([0, 1, 499, 500, 9999, 10000, rng.randint(0, 10 ** 9), rng.randint(0, 10 ** 5) * 500, rng.randint(0, 10 ** 4) * 10000 - 1])
     now = base
-    ops = [f"clock {now}", "load %d %s" % (len(rules), " ".join(",".join(map(str, r)) for r in rules))]
-    geoms = [geom(r[2]) for r in rules]
+    ops = [f"clock {now}", "load %d %s" % (len(rules), " ".join(rule_tok(r) for r in rules))]
+    geoms = [geom(r[2]) for r in rules if len(r) == 4] or [geom(0)]
+    kinds = []
     resources = list(range(1, nres + 1))
     focus = rules[rng.randrange(len(rules))]
     # resource types: 35% of the cases never pass WithResourceType, the others mix typed and untyped entries
@@ -105,6 +160,15 @@ def gen_case(rng, cid, force_region=None):
     for _ in range(nops):
         x = rng.random()
         _, n, L, Iv = rng.choice(geoms)
+        if nreloads < 4 and rng.random() < reload_p:
+            rules, what = mutate_rules(rng, rules, nres)
+            kinds.append(what)
+            nreloads += 1
+            ops.append("load %d %s" % (len(rules), " ".join(rule_tok(r) for r in rules)))
+            geoms = [geom(r[2]) for r in rules if len(r) == 4] or [geom(0)]
+            if all(r is not focus for r in rules):
+                focus = rules[rng.randrange(len(rules))]
+            continue
         if x < 0.22:
             d = rng.choice([0, 1, 1, 2, L - 1, L, L + 1, Iv - 1, Iv, Iv + 1, max(0, Iv - L), 10000, 10001, n * L, 2 * n * L + 3, rng.randint(0, 2 * L), rng.randint(0, 1200)])
             if rng.random() < 0.25:   # snap to a bucket / window / cycle boundary (or 1 ms before it)
@@ -130,8 +194,9 @@ def gen_case(rng, cid, force_region=None):
             ops.append("par %d %s %s" % (res, ",".join(map(str, bs)), ",".join(map(str, sched))) + type_tok(rng, tprob, pref, res, k))
         else:
             ops.append(f"sum {rng.choice(resources + [nres + 1])}")
-    tags = tuple("%s%s" % (g[0], "/assoc" if r[3] != "-" else "") for g, r in zip(geoms, rules))
-    return Case(cid, ops, tags=tags)
+    first = [x.split(",") for x in ops[1].split()[2:]]
+    tags = tuple("throttle" if len(r) == 5 else "%s%s" % (geom(int(r[2]))[0], "/assoc" if r[3] != "-" else "") for r in first)
+    return Case(cid, ops, tags=tags + tuple("reload:" + k for k in kinds))
 
 
 def typed_stats(cases, dist):
@@ -166,7 +231,11 @@ def gen(ctx, n):
         for t in c.tags:
             dist[t] = dist.get(t, 0) + 1
         rules = [x.split(",") for x in c.ops[1].split()[2:]]
-        if any(r[3] != "-" and r[3] != r[0] and geom(int(r[2]))[0] == "own" for r in rules):
+        if any(len(a) == 5 and len(b) == 4 and a[0] == b[0] for i, a in enumerate(rules) for b in rules[i + 1:]):
+            dist["cases-with-throttle-before-reject-on-one-resource"] = dist.get("cases-with-throttle-before-reject-on-one-resource", 0) + 1
+        if any(t.startswith("reload:") for t in c.tags):
+            dist["cases-with-reload"] = dist.get("cases-with-reload", 0) + 1
+        if any(len(r) == 4 and r[3] != "-" and r[3] != r[0] and geom(int(r[2]))[0] == "own" for r in rules):
             dist["cases-inside-known-finding-region"] = dist.get("cases-inside-known-finding-region", 0) + 1
         if len(rules) > 1:
             dist["cases-with-several-rules"] = dist.get("cases-with-several-rules", 0) + 1
@@ -216,6 +285,10 @@ def nontrivial(case, impl):
     for l in impl:
         op, r = split_res(l)
         t = op.split()
+        if r and " +" in r:
+            r = r.split(" +")[0]
+        if t[0] == "load" and kinds:
+            kinds.append("L")
         if t[0] == "clock":
             now = int(t[1])
             kinds.append("c")
@@ -327,9 +400,9 @@ META = {
                    "spurious block, blocked requests consume nothing; small-step theorem: with at most k callers between check and record the window sum "
                    "never exceeds T+(k-1)*maxBatch for any number of threads and any schedule. The model is tied to the code by running the same op files "
                    "through flow.LoadRules/api.Entry (virtual clock, goroutines parked at chain.between-check-and-stat) and the compiled Lean driver."),
-    "level_note": ("Trusted: Lean kernel; axioms propext/Classical.choice/Quot.sound; Go harness, virtual util.Clock, yield hook. Modelled not verified: "
-                   "float64 threshold read as exact dyadic (exact while counts stay below 2^53), only Direct+Reject rules, a single LoadRules per case "
-                   "(controller reuse across reloads is C14), default statistic configuration (20x500 ms node array, 1000 ms default view), other slots "
+    "level_note": ("Scope of the proofs: reject-only rule lists and a first load (executed_eq_core ties the general driver definitions to that core); throttling rules in the chain and reloads are covered by the shared chain walk (chain_model_eq_ref), C10's doCheck model and the correspondence/spec runs, not by a refinement proof. Trusted: Lean kernel; axioms propext/Classical.choice/Quot.sound; Go harness, virtual util.Clock, yield hook. Modelled not verified: "
+                   "float64 threshold read as exact dyadic (exact while counts stay below 2^53), Direct+Reject and Direct+Throttling rules (throttling interval as exact rational ceiling; generator keeps power-of-two thresholds "
+                   "where the float64 expression is exact), default statistic configuration (20x500 ms node array, 1000 ms default view), other slots "
                    "(system/isolation/hotspot/breaker) have no rules. Known finding assoc-standalone-own-traffic: faithful model + witness + partial."),
     "design_ref": "DESIGN.md 6.C02",
 }
